@@ -11,8 +11,8 @@
    returns; at the level of rows (theorem 14) there is no side condition at all.  Refuted.v keeps the
    pre-fix ring operations with their witnesses as regression facts. *)
 From Coq Require Import Permutation.
-From GocqlV Require Import Lib.Base C16.ZMap C16.Model C16.Spec
-  C16.Proofs1 C16.Proofs2 C16.Proofs3 C16.Proofs4 C16.Proofs5 C16.Proofs6.
+From GocqlV Require Import Lib.Base Gen.Consts C16.ZMap C16.Model C16.Spec
+  C16.Proofs1 C16.Proofs2 C16.Proofs3 C16.Proofs4 C16.Proofs5 C16.Proofs6 C16.Proofs7 C16.Debounce.
 
 (* 1. Index consistency over every history of ring operations (any length, any hosts, hosts sharing
    addresses, updates that move addresses): look-ups by id and by address and the ordered list agree. *)
@@ -172,6 +172,65 @@ Theorem C16_refresh_rows : forall c s local rows,
   end.
 Proof. exact refresh_rows_correct. Qed.
 Print Assumptions C16_refresh_rows.
+
+(* 15. The event debouncer's buffer: whatever arrives in one window, handleNodeEvent gets the first
+   eventBufferSize frames (generated constant) in order; later frames of the window are dropped. *)
+Theorem C16_event_buffer_cap : forall fs,
+  window fs = firstn (Z.to_nat K.eventBufferSize) fs /\ Z.of_nat (length (window fs)) <= K.eventBufferSize.
+Proof.
+  intros fs. pose proof (window_firstn fs) as H1. pose proof (window_length fs) as H2. pose proof cap_eq as H3.
+  destruct window_cap_is_constant as [_ Hc]. split; [|lia].
+  rewrite H1. f_equal.
+Qed.
+Print Assumptions C16_event_buffer_cap.
+
+(* 16. Every EVENT frame is handed to the debouncer on its own goroutine, so the frames of one window reach
+   the buffer in an arbitrary order p of the order fs in which the node sent them.  For every such order
+   (and whatever the buffer drops): the batch is processed without a panic, the same nodes stay known, at
+   most 1 + eventBufferSize refresh requests are made, and the status dispatched for an address is one of the
+   statuses the node sent for that address. *)
+Theorem C16_event_reordering : forall c s fs p,
+  sess_inv s -> Permutation p fs ->
+  exists s', handle_node_events c s (window p) = Some s' /\ sess_inv s' /\ same_nodes (s_ring s) (s_ring s')
+    /\ s_refresh s' <= s_refresh s + 1 + K.eventBufferSize
+    /\ forall k ch, last_status (window p) k = Some ch -> In (EStatus ch k) fs.
+Proof. exact reordered_window_ok. Qed.
+Print Assumptions C16_event_reordering.
+
+(* 17. Two statuses UP, DOWN for the address k of a known, accepted node in one window - both arrival
+   orders.  If DOWN reaches the buffer last the batch is exactly handleNodeDown: the node is marked down,
+   loses its pool and is not offered (8).  If UP reaches it last the batch is exactly handleNodeUp: a pool
+   fill is started and the policy told, the node's record and its up/down mark are left as they were (so a
+   node that really is down is only noticed by the pool's failing fill, which is C17's).  In both cases
+   the node stays known. *)
+Theorem C16_two_statuses_both_orders : forall c s k h,
+  sess_inv s -> dis_status c = false -> get_by_ip (s_ring s) k = (Some h, true) ->
+  accept c h = true -> accept c (set_up h false) = true ->
+  (exists s1, handle_node_events c s [EStatus 1 k; EStatus 2 k] = Some s1
+              /\ marked_down (s_ring s1) (h_id h) /\ ~ In (h_id h) (s_pool s1) /\ offered s1 (h_id h) = false)
+  /\ handle_node_events c s [EStatus 2 k; EStatus 1 k] = Some (start_pool_fill s h)
+  /\ In (h_id h) (s_pool (start_pool_fill s h)) /\ s_ring (start_pool_fill s h) = s_ring s.
+Proof.
+  intros c s k h Hinv Hd G Ha Ha'. split.
+  - rewrite two_statuses, single_down by exact Hd.
+    destruct (node_down_effect c s k h Hinv G Ha') as [s1 [E [M [P [O _]]]]]. exists s1. auto.
+  - rewrite two_statuses, single_up by exact Hd. split; [apply node_up_effect; assumption|].
+    split; [|reflexivity]. simpl. apply In_pool_add. right. reflexivity.
+Qed.
+Print Assumptions C16_two_statuses_both_orders.
+
+(* 18. Order-independence of a refresh.  Its first loop follows the order of the report; its second loop
+   ranges over the Go map prevHosts.  Whatever order that range takes, the refresh ends in the same state:
+   the same hosts, the same ordered list, the same address index (an entry whose owner vanished passes to
+   the first remaining host of the list with that address - Proofs7.ip_after), the same pools, the same
+   refresh counter, and the same calls on the policy up to their order. *)
+Theorem C16_refresh_order_independent : forall c s report,
+  ring_inv (s_ring s) -> (forall id, In id (s_pool s) -> knows (s_ring s) id) -> report_ok c report ->
+  exists s1 prev, refresh_loop c s (hosts (s_ring s)) [] report = (s1, prev, ROk)
+    /\ refresh c s report = (remove_all s1 prev, ROk)
+    /\ forall order, Permutation prev order -> same_state (remove_all s1 prev) (remove_all s1 order).
+Proof. exact refresh_order_independent. Qed.
+Print Assumptions C16_refresh_order_independent.
 
 (* ------------------------------------------------------------------------------------------------
    Non-vacuity: the side conditions hold on non-trivial histories (checked by computation through the
